@@ -550,12 +550,12 @@ type LoopInvClient interface {
 }
 
 type Exec struct {
-	StrictConv     bool // integer conversions that may change the value yield opaque terms
-	NormSubslice   bool // s[lo:hi][j] is s[lo+j], len(s[lo:hi]) is hi-lo (opaque slices)
+	StrictConv     bool   // integer conversions that may change the value yield opaque terms
+	NormSubslice   bool   // s[lo:hi][j] is s[lo+j], len(s[lo:hi]) is hi-lo (opaque slices)
 	curSt          *State // the state of the instruction being interpreted (for values whose content is kept per state)
-	FlagExits      bool // a back edge whose values decide a flag tested alone by the header leaves the loop directly (for done := false; !done; ...)
-	PreciseExits   bool // loop exits are recomputed from the entry values and from each back edge's values (rotation)
-	Comprehend     bool // summarise positional list comprehensions (exec_fam.go)
+	FlagExits      bool   // a back edge whose values decide a flag tested alone by the header leaves the loop directly (for done := false; !done; ...)
+	PreciseExits   bool   // loop exits are recomputed from the entry values and from each back edge's values (rotation)
+	Comprehend     bool   // summarise positional list comprehensions (exec_fam.go)
 	NComprehended  int
 	UniqueMake     bool // make([]T, n) yields a distinct term per site instead of an empty abstract list
 	HavocSlicePhis bool // loop-carried slices are unknown per iteration (not accumulated lists)
@@ -1064,6 +1064,7 @@ type blockOut struct {
 	target *ssa.BasicBlock // outLoopExit: block outside the loop; outBackEdge: header
 	from   *ssa.BasicBlock
 	vals   []*Term
+	left   bool // the client has already been told that this path leaves the loop
 }
 
 // alt is one alternative continuation of an instruction.
@@ -1459,8 +1460,34 @@ func (x *Exec) execLoopUncached(fr *Frame, li *loopInfo, pred *ssa.BasicBlock, s
 		for ph, v := range phiVals {
 			newPhi[ph] = v
 		}
-		for _, o := range outs {
+		for oi := 0; oi < len(outs); oi++ {
+			o := outs[oi]
 			x.curSt = o.st
+			if o.kind == outBackEdge && x.FlagExits {
+				if pi := predIdx(o.from); pi >= 0 {
+					if fv := x.flagValue(li, o, pi); fv != nil && o.st.truth(fv) < 0 && (fv.Op == "lt" || fv.Op == "eq" || fv.Op == "not") {
+						// the flag is a comparison this iteration computed but did not
+						// branch on: decide it here, once each way
+						for _, val := range []bool{true, false} {
+							o2 := o
+							o2.st = o.st.clone()
+							o2.fr = o.fr.clone()
+							o2.st.setFact(fv, val)
+							o2.st.note(token.NoPos, "loop flag %s = %v", fv, val)
+							outs = append(outs, o2)
+						}
+						continue
+					}
+					if ex, ok := x.flagExit(li, o, phis, pi, cur, all); ok {
+						// the header's test is a flag this iteration has just decided:
+						// this path leaves the loop instead of being joined into its head
+						x.C.OnLoopLeave(x, o.st, o.fr, cur, false)
+						ex.left = true
+						directExits = append(directExits, ex)
+						continue
+					}
+				}
+			}
 			if o.kind == outBackEdge {
 				x.C.OnBackEdge(x, o.st, o.fr, cur)
 				pi := predIdx(o.from)
@@ -1490,14 +1517,6 @@ func (x *Exec) execLoopUncached(fr *Frame, li *loopInfo, pred *ssa.BasicBlock, s
 						}
 					}
 					x.marks = x.marks[:len(x.marks)-1]
-				}
-				if x.FlagExits && pi >= 0 {
-					if ex, ok := x.flagExit(li, o, phis, pi, cur, all); ok {
-						// the header's test is a flag this iteration has just decided:
-						// this path leaves the loop instead of being joined into its head
-						directExits = append(directExits, ex)
-						continue
-					}
 				}
 				backOuts = append(backOuts, o)
 				backs = append(backs, x.renameBack(o.st, cur, all))
@@ -1597,7 +1616,7 @@ func (x *Exec) execLoopUncached(fr *Frame, li *loopInfo, pred *ssa.BasicBlock, s
 			exits = append(exits, directExits...)
 			var res []blockOut
 			for _, e := range exits {
-				if e.kind == outLoopExit {
+				if e.kind == outLoopExit && !e.left {
 					x.C.OnLoopLeave(x, e.st, e.fr, cur, e.from == li.header)
 				}
 				if e.kind == outLoopExit && e.from == li.header {
@@ -1624,6 +1643,38 @@ func (x *Exec) execLoopUncached(fr *Frame, li *loopInfo, pred *ssa.BasicBlock, s
 	}
 	fatalf("pathsim: loop at block %d of %s did not stabilise", li.header.Index, funcKey(fr.fn))
 	return nil
+}
+
+// flagValue: the value this back edge hands to the flag phi that the header
+// tests alone (nil if the header has another shape).
+func (x *Exec) flagValue(li *loopInfo, o blockOut, pi int) *Term {
+	h := li.header
+	var iff *ssa.If
+	for _, ins := range h.Instrs {
+		switch v := ins.(type) {
+		case *ssa.Phi, *ssa.DebugRef:
+		case *ssa.UnOp:
+			if v.Op != token.NOT {
+				return nil
+			}
+		case *ssa.If:
+			iff = v
+		default:
+			return nil
+		}
+	}
+	if iff == nil {
+		return nil
+	}
+	c := iff.Cond
+	if u, ok := c.(*ssa.UnOp); ok && u.Op == token.NOT && u.Block() == h {
+		c = u.X
+	}
+	ph, ok := c.(*ssa.Phi)
+	if !ok || ph.Block() != h {
+		return nil
+	}
+	return x.val(o.fr, ph.Edges[pi])
 }
 
 // flagExit: the header consists of phis and a branch on one of them (or its
